@@ -6,7 +6,8 @@ environment strings, scripted HTTP outcomes, file writes, HAProxy admin behaviou
 implementation's answers (constructed configuration, instant / answer / reaction of every health check,
 policies in force after every step).  Nothing of the watcher's or the accessor's state appears.
 
-* `wholds` (= `coreOk`) is PROPERTY C20 on the wired fail-safe, and the only thing the judge evaluates:
+* `wholds` (= `coreOk` + `effectOk`, see below) is PROPERTY C20 on the wired fail-safe, and the only thing
+  the judge evaluates:
   level 1's `holds` on the health checks (alternation, stability, cool-down) under the configuration the
   ENVIRONMENT states, where the "observed health" of every check is what the predicate must answer for the
   scripted stats and thresholds (`expectedHealthy`, a declarative reading of "unhealthy only on a 200
@@ -187,8 +188,50 @@ def excluded : Ref → Hist → Option Beyond
     | some f => some f
     | none => excluded (refStep r x).1 rest
 
-/-- Property C20 on one wired case whose construction succeeded with `raw`. -/
-def wholds (raw : RawCfg) (thr : Thr) (h : Hist) : Bool := coreOk raw.toCfg thr h
+/-! ### the EFFECT of a reaction (judged)
+
+"The fail-safe that drops diagnosis plugins when the link is unhealthy": right after an `unhealthy`
+reaction no diagnosis plugin is in force, right after `healthy again` the last loaded policies are - where
+"last loaded" is what the code itself calls so (the file read by the latest `ReloadFromFile`, else the boot
+file), and nothing is demanded while HAProxy's admin API refuses (input) or without an accessor. -/
+
+structure Eff where
+  last      : Pol       -- content of the file read by the latest reload (boot file at first)
+  file      : FileSt    -- input: what the user's policies.yaml holds
+  adminFail : Bool      -- input: HAProxy's admin API refuses
+deriving Repr
+
+def Eff.init (p : Pol) : Eff := ⟨p, .good p, false⟩
+
+def effStep (r : Eff) (x : Op × Ans) : Eff × Bool :=
+  match x.1, x.2 with
+  | .write f, _ => ({ r with file := f }, true)
+  | .admin b, _ => ({ r with adminFail := b }, true)
+  | .reload, _ =>
+    ((match r.file.content with
+      | some p => { r with last := p }
+      | none => r), true)
+  | .obs _ _, .obs e _ cur =>
+    (r, match e.react with
+        | none => true
+        | some s =>
+          if r.adminFail then true else
+          match cur with
+          | none => false
+          | some c => if s then c == r.last else !(c.g || c.e))
+  | _, _ => (r, true)
+
+def effectOk : Eff → Hist → Bool
+  | _, [] => true
+  | r, x :: rest => (effStep r x).2 && effectOk (effStep r x).1 rest
+
+/-- Property C20 on one wired case whose construction succeeded with `raw`: when the reactions fire
+    (`coreOk`) and that they do what they are for (`effectOk`). -/
+def wholds (raw : RawCfg) (thr : Thr) (p0 : Option Pol) (h : Hist) : Bool :=
+  coreOk raw.toCfg thr h &&
+  match p0 with
+  | some p => effectOk (Eff.init p) h
+  | none => true
 
 /-- Beyond the property: the policies in force follow the reference. -/
 def inForceOk (p0 : Option Pol) (h : Hist) : Bool :=
